@@ -6,6 +6,7 @@ import itertools
 import random
 
 from .. import engine
+from .. import refcodec as rc
 from ..runner import Part
 
 PROPERTY = "C10"
@@ -45,7 +46,8 @@ REQ_CLASSES = {
 # classes whose script legitimately makes the library retransmit / reconnect
 RETRY_CLASSES = {"drop_ok", "exh", "garbage_ok", "closelate_ok", "close_ok", "late", "frag1", "reset_ok", "senderr"}
 # a request the inverter rejects, followed IN THE SAME LOOP ITERATION by a request it answers (no pause in which a deferred clean-up could run)
-ACTIONS = list(REQ_CLASSES) + ["CLOSE", "NEWLOOP", "PEERDROP", "REJ_THEN_OK"]
+# RAWCMD: a raw command through the public send_command() (answered at once): it travels over the object's one transport like any request
+ACTIONS = list(REQ_CLASSES) + ["CLOSE", "NEWLOOP", "PEERDROP", "REJ_THEN_OK", "RAWCMD"]
 
 
 def scenario(transport, ka, T, R, actions):
@@ -61,6 +63,13 @@ def scenario(transport, ka, T, R, actions):
         elif a == "NEWLOOP":
             segments.append(cur)
             cur = []
+        elif a == "RAWCMD":
+            reg += 1
+            by_reg[reg] = ["now"]
+            reg_class[reg] = "ok"
+            cmd_ = {"kind": "read", "comm": 0xF7, "reg": reg, "count": 2}
+            pdu_ = rc.tcp_request_pdu(cmd_)
+            cur.append(["rawcmd", (rc.rtu_request(cmd_) if framing == "rtu" else b"\x00\x01\x00\x00" + len(pdu_).to_bytes(2, "big") + pdu_).hex()])
         elif a == "REJ_THEN_OK":
             reg += 2
             by_reg[reg - 1], by_reg[reg] = [["exc", 2]], ["now"]
@@ -187,7 +196,7 @@ def check_run(sc, run, part: Part):
         acts = sc["actions"]
         # ... and transparently: when nothing in the history can leave a stray answer behind (only answered requests, close(), loop changes
         # and - TCP - idle connection drops), the healthy request needs exactly one transmission
-        clean = {"ok", "slow_ok", "frag2_ok", "rej", "CLOSE", "NEWLOOP", "ok_latebad", "ok_latereset", "ok_latefrag", "REJ_THEN_OK"} | ({"PEERDROP"} if tr == "tcp" else set())
+        clean = {"ok", "slow_ok", "frag2_ok", "rej", "CLOSE", "NEWLOOP", "ok_latebad", "ok_latereset", "ok_latefrag", "REJ_THEN_OK", "RAWCMD"} | ({"PEERDROP"} if tr == "tcp" else set())
         ntx = len([e for e in engine.events_of_call(run, healthy[0]["id"]) if e[1] == "tx"])
         if all(a in clean for a in acts):
             part.count("transparent_reconnect_checked")
